@@ -56,6 +56,9 @@ BpTableOk(e) ==
   /\ Len(e.rows) = Len(e.stmts)
   /\ \A i \in 1 .. Len(e.stmts) : e.rows[i][1] = e.stmts[i][1] /\ e.rows[i][2] = CellOf(e.stmts[i][2])
 
+(* the values print / registers show, and the exit status, do not depend on --minimal (the decorated output must not touch the machine) *)
+ModePairOk(e) == e.min = e.full /\ Len(e.min[2]) > 0
+
 (* ---- C06: compile output, loader ---- *)
 CompileOk(e) ==
   IF Accepts(e.ast, e.stack)
@@ -165,6 +168,7 @@ WatchOk(e) == /\ e.seen \in {"none", IF e.valid THEN "success" ELSE "error"}
 Explains(e) ==
   CASE e.ev = "transport" -> TransportOk(e)
     [] e.ev = "xport"     -> XportOk(e)
+    [] e.ev = "modepair"  -> ModePairOk(e)
     [] e.ev = "bptable"   -> BpTableOk(e)
     [] e.ev = "ends"      -> EndsOk(e)
     [] e.ev = "clitotal"  -> CliTotalOk(e)
